@@ -823,3 +823,37 @@ impl Write for SharedSink {
     fn write(&mut self, b: &[u8]) -> std::io::Result<usize> { self.0.lock().unwrap().extend_from_slice(b); Ok(b.len()) }
     fn flush(&mut self) -> std::io::Result<()> { Ok(()) }
 }
+
+/// Bounded check of the ASSUMED conversions of mla/src/errors.rs (transcribed in prelude/errors.rs): for every variant of `Error` of the
+/// pinned tree, `io::Error::from(e)` is an error whose kind std's retry loops (`read_exact`, `read_to_end`, `write_all`, `io::copy`)
+/// do NOT swallow -- never `Interrupted` -- and an `IOError(e)` is handed back as that very `e`; `Error::from(ConfigError)` keeps the
+/// documented mapping.
+#[test]
+fn probe_error_conversions() {
+    use crate::errors::{ConfigError, Error as E};
+    use std::io::ErrorKind as K;
+    let s = || "x".to_string();
+    let all: Vec<E> = vec![
+        E::WrongMagic, E::UnsupportedVersion, E::InvalidECCKeyFormat, E::WrongBlockSubFileType,
+        E::UTF8ConversionError(String::from_utf8(vec![0xff]).unwrap_err()), E::FilenameTooLong,
+        E::WrongArchiveWriterState { current_state: s(), expected_state: s() }, E::AssertionError(s()), E::WrongReaderState(s()),
+        E::WrongWriterState(s()), E::PrivateKeyNeeded, E::DeserializationError, E::SerializationError, E::MissingMetadata,
+        E::BadAPIArgument(s()), E::EndOfStream, E::ConfigError(ConfigError::IncoherentPersistentConfig), E::DuplicateFilename,
+        E::AuthenticatedDecryptionWrongTag, E::HKDFInvalidKeyLength,
+    ];
+    for e in all {
+        let name = format!("{e:?}");
+        let io: std::io::Error = e.into();
+        assert!(io.kind() != K::Interrupted, "Error::{name} converts to an io::Error of kind Interrupted: read_exact / read_to_end / io::copy retry it forever");
+        assert!(io.kind() != K::WouldBlock && io.kind() != K::TimedOut, "Error::{name} converts to a retryable io::Error kind {:?}", io.kind());
+    }
+    for k in [K::UnexpectedEof, K::InvalidData, K::Other, K::PermissionDenied, K::Interrupted] {
+        let back: std::io::Error = E::IOError(std::io::Error::new(k, "payload")).into();
+        assert!(back.kind() == k && back.to_string() == "payload", "Error::IOError(e) does not convert back to e (kind {k:?})");
+    }
+    assert!(matches!(E::from(ConfigError::PrivateKeyNotSet), E::PrivateKeyNeeded));
+    for c in [ConfigError::IncoherentPersistentConfig, ConfigError::CompressionLevelOutOfRange, ConfigError::EncryptionKeyIsMissing, ConfigError::PrivateKeyNotFound, ConfigError::ECIESComputationError] {
+        let n = format!("{c:?}");
+        assert!(matches!(E::from(c), E::ConfigError(_)), "ConfigError::{n} is not kept as Error::ConfigError");
+    }
+}
